@@ -35,6 +35,80 @@ CHECKS = {
         "record; reset()+run() must repeat the sequence. Held on the (program, mode) pairs explored.",
         "Trusted: the unobserved run in the same process as baseline; harness event hook for the breakpoint-position oracle.",
     ),
+    "C03": (
+        "exploration",
+        "DESIGN.md 5/C03",
+        "runtime monitoring: differential run digests (delivery log + public stats) across fresh interpreters varying PYTHONHASHSEED, preceding activity and wall-clock behaviour",
+        "Batches of scenarios from a 277-entry catalogue covering every component family are executed in four fresh interpreters (hash seeds 0/1/12345/random, "
+        "different orders and repetitions, perturbed and backward-stepping wall clocks); all executions of one (scenario, seed) must produce the same digest; "
+        "mismatches are diagnosed by controlled re-runs. Held on the (scenario, seed, parameter) triples explored.",
+        "Trusted: scenario builders seed RNGs as a user would; digest covers the probe's delivery log and public attributes/properties of the scenario's components.",
+    ),
+    "C09": (
+        "exploration",
+        "DESIGN.md 5/C09",
+        "runtime monitoring: client-boundary holder ledger + public counters sampled after every delivery and at the end of every instant, frozen-clock probe, fixpoint stranded-waiter check",
+        "3 600 generated worker workloads per quick run against Resource, PreemptibleResource, Mutex, Semaphore, RWLock, Barrier, Condition, ConnectionPool, Bulkhead, ThreadPool, Server concurrency "
+        "models: over-admission, held+available==capacity, ordered single wake-up, head-of-line waiter served when it fits, no frozen clock, no stranded waiter. 7 known findings on the Server/ThreadPool "
+        "queue hand-off are pinned (shared with C08).",
+        "Trusted: holder ledger written by harness workers at the client boundary; end-of-instant = time-advance hook.",
+    ),
+    "C10": (
+        "exploration",
+        "DESIGN.md 5/C10",
+        "runtime monitoring: admitted-timestamp histories of the real policies vs exact interval bounds (integer ns / Fraction), truthfulness probes on clones, request ledgers in real simulations",
+        "12 500 generated arrival sequences per quick run (exact window/refill boundaries, +-1 ns, inexact float windows) drive the real policy objects; interval bounds, "
+        "time_until_available truthfulness and drain progress are decided exactly; 1 290 simulations check exactly-once / order / no frozen clock for the limiter entities.",
+        "Trusted: the oracle's reading of each bound (tolerances in notes/design-C10.md); shallow clones agree with deepcopy (self-checked every case).",
+    ),
+    "C12": (
+        "exploration",
+        "DESIGN.md 5/C12",
+        "runtime monitoring: per-event sampling of decided values / commit indices / leaders / fencing tokens under scripted adversarial delivery (ChaosLink), history oracles for agreement, validity, stability",
+        "9 100 runs per quick tier of single-decree, Flexible and Multi-Paxos, leader election and lock strings on a scripted network (delays, reordering, loss, partitions); "
+        "agreement / validity / stability / future-value / bounded liveness decided from histories of public state sampled after every delivery. 18 known findings (Multi/Flexible Paxos, LeaderElection) "
+        "are pinned with mechanism labels computed from the observed wire history.",
+        "Trusted: label computation for known findings (a new Multi/Flexible-Paxos agreement bug needing take-over could receive a known label while those findings are alive).",
+    ),
+    "C13": (
+        "exploration",
+        "DESIGN.md 5/C13",
+        "runtime monitoring: every member's view of every peer sampled after every delivery under bounded scripted delays; phi monotonicity on increasing time grids",
+        "3 000 cases per quick run: healthy clusters (no DEAD may appear), stop-for-good members (ALIVE reports must stop within (3N+10) probe intervals), scripted gossip peers (DEAD->ALIVE needs a higher incarnation), churn, "
+        "and the phi detector alone on grids far into the tail.",
+        "Trusted: the fixed detection bound B=(3N+10) intervals; message delays within 10% of the probe interval measured from the script log.",
+    ),
+    "C14": (
+        "exploration",
+        "DESIGN.md 5/C14",
+        "runtime monitoring: client-boundary operation histories with unique values checked by a regular-register interval oracle, dict model for sync APIs, serial-order search for transactions",
+        "2 100 histories per quick run over LSM (three compaction strategies, tiny memtables), B-tree, KV store; gets/scans judged per key by the interval rule; synchronous strings equal a dict; "
+        "committed SERIALIZABLE transactions explained by a serial order (exact pruned search), SI reads by one committed state.",
+        "Trusted: the interval oracle (hsverif/c14_oracle.py); FIFO compaction scoped as described in notes/design-C14.md.",
+    ),
+    "C15": (
+        "fault_enumeration",
+        "DESIGN.md 5/C15",
+        "runtime monitoring with crash-point enumeration: workload re-run and crashed at event k (every k on the thorough tier), recovery state checked against the durable-op ledger",
+        "Each workload is run to the end to count its E events; for sampled (quick) or all (thorough) k it is re-run, stepped k events, crashed, recovered (twice, and crashed again), and every key read; "
+        "durable writes must be readable with their latest durable value or a later one, nothing resurrected or invented.",
+        "Trusted: durability ledger from wal.synced_up_to and WAL sequence numbers taken at invocation; real-time order of same-key ops at the client boundary.",
+    ),
+    "C17": (
+        "exploration",
+        "DESIGN.md 5/C17",
+        "runtime monitoring: replica stores sampled after every delivery, ack oracles evaluated at the delivery that resolves the reply, convergence at detected quiescence / anti-entropy fixpoints, under scripted reordering",
+        "7 600 runs per quick tier over primary-backup (three modes), chain replication with and without CRAQ, multi-leader with every resolver, ReplicatedStore; messages reorder freely on ChaosLinks.",
+        "Trusted: fixpoint detection rule for multi-leader (notes/design-C17.md); no loss/crash in this property's workloads.",
+    ),
+    "C18": (
+        "exploration",
+        "DESIGN.md 5/C18",
+        "runtime monitoring: generated message histories vs transitive happened-before; CRDT op/merge schedules vs op-based specification and algebraic laws on reachable states",
+        "10 600 cases per quick run: 1.4 M event pairs compared for Lamport / vector / HLC clocks under skewed, drifting and backward physical clocks; CRDT value vs spec after every op, replica equality for equal update sets, "
+        "merge laws, dict round trips, CRDTStore gossip fixpoints in real simulations.",
+        "Trusted: harness happened-before closure and op-based specifications in hsverif/props/c18.py.",
+    ),
     "C20": (
         "exploration",
         "DESIGN.md 5/C20",
